@@ -2,4 +2,5 @@ import Cgm.Lemmas.AuditCmd
 import Cgm.Props.C08
 import Cgm.Props.C08c
 import Cgm.Props.C08b
+import Cgm.Props.C08d
 #audit_namespace Cg.C08
